@@ -23,19 +23,19 @@ Proof. unfold players_measure. rewrite map_app, list_sum_app. simpl. lia. Qed.
 Lemma cost_mono sc : forall S S', S <= S' -> cost sc S <= cost sc S'.
 Proof.
   induction sc as [|c r IH]; intros S S' H; simpl; [lia|].
-  destruct c; unfold tail; try (specialize (IH S S' H); lia).
-  specialize (IH (S + 1) (S' + 1)). lia.
+  destruct c; unfold tail; try (specialize (IH S S' H); lia);
+    specialize (IH (S + 1) (S' + 1)); lia.
 Qed.
 
 (* what fetching the next command costs at most *)
 Definition idle_cur (M : mpc) (S : nat) : nat :=
   match M with
-  | MPlayAcq a => 8 + (S + 1) + new_budget a + LOOPW
+  | MPlayAcq a _ => 8 + (S + 1) + new_budget a + LOOPW
   | MCtlAcq _ _ => 4
   | MCloseAcqH => 10 + tail S
   | _ => 0
   end.
-Definition idle_S (M : mpc) (S : nat) : nat := match M with MPlayAcq _ => S + 1 | _ => S end.
+Definition idle_S (M : mpc) (S : nat) : nat := match M with MPlayAcq _ _ => S + 1 | _ => S end.
 
 Lemma fetch_cost np B sc :
   idle_cur (fst (fetch np sc)) B + cost (snd (fetch np sc)) (idle_S (fst (fetch np sc)) B) <= cost sc B.
@@ -112,6 +112,7 @@ Proof.
             simpl; pm_tac Ep Epc; try rewrite E in *; unfold loop_pc in *;
             repeat match goal with
                    | H : context[match prem ?q with _ => _ end] |- _ => destruct (prem q) eqn:?
+                   | H : context[if pcrash ?q then _ else _] |- _ => unfold crash_pc in *; destruct (pcrash q)
                    end; simpl in *; lia).
   (* PFinRemove *)
   rewrite (started_bound_ext _ s) by reflexivity.
@@ -163,21 +164,17 @@ Proof.
             rewrite ?pmeasure_snoc, ?app_length; unfold pm, new_budget, LOOPW, tail; simpl; lia).
   all: unfold measure, started_bound, cur, jr; simpl; rewrite ?HM; simpl; pm_same;
        rewrite ?app_length; unfold new_budget, LOOPW, tail; simpl.
-  - (* MPlayAcq raises *) mono_tac. lia.
-  - (* MPlayAppend, _started empty *) rewrite Heql. simpl. try mono_tac. lia.
-  - (* MPlayAppend -> MPlayPrune *) rewrite Heql. simpl. try mono_tac. lia.
-  - (* MPlayPrune last, alive *) rewrite ?app_length. simpl. mono_tac. lia.
-  - (* MPlayPrune last, dead *) rewrite ?app_length. simpl. mono_tac. lia.
-  - (* MPlayPrune step, alive *) rewrite ?app_length. simpl. mono_tac. lia.
-  - (* MPlayPrune step, dead *) mono_tac. lia.
+  all: try solve [try mono_tac; lia].
+  all: try solve [rewrite Heql; simpl; try mono_tac; lia].
+  all: try solve [rewrite ?app_length; simpl; mono_tac; lia].
   - (* MPlayStart *)
     destruct (nth_error_some_of_lt (splayers s) p) as [q Hq];
       [apply (g_refs _ G); rewrite HM; simpl; tauto|].
     assert (Epc : ppc_ q = PNew) by (apply (p_new _ _ _ (P p q Hq)); rewrite HM; reflexivity).
     pose proof (pmeasure_upd (fun q0 => p_set_pc q0 (loop_pc q0)) (splayers s) p q Hq) as Hs.
-    unfold pm, loop_pc in Hs. simpl in Hs. rewrite Epc in Hs. unfold loop_pc. destruct (prem q); simpl in Hs; lia.
+    unfold pm, loop_pc, crash_pc in Hs. simpl in Hs. rewrite Epc in Hs. unfold loop_pc, crash_pc.
+    destruct (prem q); destruct (pcrash q); simpl in Hs; lia.
   - (* MCloseGet -> MCloseLoopRel *) rewrite E. simpl. rewrite Nat.eqb_refl. simpl. lia.
-  - (* MCloseBreakRel -> MCloseJoinAll *) rewrite Heql. simpl. try mono_tac. lia.
   - (* MCloseJoin -> MCloseLoopAcq: the joined thread has left _threads *)
     pose proof (p_threads _ _ _ (P t p E)) as Hth. rewrite E0 in Hth. simpl in Hth. rewrite Hth. lia.
 Qed.
